@@ -109,6 +109,7 @@ pub fn scope(name: &str) -> Option<Scope> {
         // dynamic roots
         "S2d" => Scope { name: "S2d", n: 2, r: 1, k: 1, weak: false, upgrade_ops: false, sets: 1, handles: 3, ..BASE },
         "S2d2" => Scope { name: "S2d2", n: 2, r: 1, k: 1, weak: false, upgrade_ops: false, copyroot: false, wrap: false, sets: 2, handles: 2, ..BASE },
+        "S1d2" => Scope { name: "S1d2", n: 1, r: 1, k: 1, weak: false, upgrade_ops: false, copyroot: false, wrap: false, sets: 2, handles: 2, ..BASE },
         "S2dw" => Scope { name: "S2dw", n: 2, r: 1, k: 1, weak: true, upgrade_ops: true, copyroot: false, wrap: false, sets: 1, handles: 2, ..BASE },
         "S2fd" => Scope { name: "S2fd", n: 2, r: 1, k: 1, weak: true, upgrade_ops: true, copyroot: false, wrap: false, fin: true, sets: 1, handles: 1, ..BASE },
         "S3d" => Scope { name: "S3d", n: 3, r: 1, k: 1, weak: false, upgrade_ops: false, sets: 1, handles: 3, ..BASE },
